@@ -488,7 +488,111 @@ def r01d(ctx):
         if len(lb) != 1:
             bad = 'not all bit positions are visited'
     (ctx.ok if bad is None else ctx.bad)('R01d', 'R01d:TMCG_SelfCardSecret', 'b[index][w] = 0 iff z[index][w] is a quadratic residue, for every w' if bad is None else bad, f)
-    ctx.floor('R01d', n, 4)
+    n += r01d_secret(ctx)
+    ctx.floor('R01d', n, 5)
+
+
+def r01d_secret(ctx):
+    """fresh card secrets keep the type: after the random bits of the other rows are drawn, the row of
+    the masking player is made the XOR of all other rows -- the update inside the loop nest is read as
+    a truth table over (own bit, other bit) and must be own := own XOR other for every other row"""
+    from .. import evalx
+    from ..facts import walk
+    prog = ctx.prog
+    f = pick(prog, '%s::TMCG_CreateCardSecret' % TM, 'TMCG_CardSecret')
+    idx = [p_ for p_ in f['params'] if p_['n'] == 'index']
+    key = 'R01d:TMCG_CreateCardSecret:xor'
+    if not idx:
+        raise AnalysisBroken('TMCG_CreateCardSecret has no parameter index any more')
+    idx = idx[0]['id']
+
+    def strip(x):
+        while isinstance(x, dict) and (x.get('k') == 'cast' or (x.get('k') == 'un' and x.get('op') in ('&', '*'))):
+            x = x['e'] if x.get('k') == 'cast' else x['a'][0]
+        return x
+
+    def row_of(x):
+        """'own' / 'other' for the cell cs.b[ROW][w]"""
+        x = strip(x)
+        if not (isinstance(x, dict) and x.get('k') in ('opcall', 'idx') and len(x.get('a', [])) == 2):
+            return None
+        inner = strip(x['a'][0])
+        if not (isinstance(inner, dict) and inner.get('k') in ('opcall', 'idx') and len(inner.get('a', [])) == 2):
+            return None
+        base = strip(inner['a'][0])
+        if not (isinstance(base, dict) and base.get('k') == 'mem' and base.get('n') == 'b'):
+            return None
+        r = strip(inner['a'][1])
+        if isinstance(r, dict) and r.get('k') == 'var':
+            return 'own' if r['id'] == idx else 'other'
+        return None
+
+    # the loop nest that reads another row and writes the own row
+    nests = []
+    for e in walk(f['body']):
+        if e.get('k') == 'for' and not any(x.get('k') == 'for' for x in walk(e.get('b'))):
+            reads = [row_of(x['a'][0]) for x in walk(e['b']) if x.get('k') == 'call' and x.get('f') == 'mpz_get_ui' and x.get('a')]
+            writes = [row_of(x['a'][0]) for x in walk(e['b']) if x.get('k') == 'call' and x.get('f') in ('mpz_set_ui', 'mpz_set') and x.get('a')]
+            if 'other' in reads and 'own' in writes:
+                nests.append(e)
+    if len(nests) != 1:
+        ctx.bad('R01d', key, 'no single loop makes the own row of bits the XOR of the other rows (found %d candidates)' % len(nests), f)
+        return 1
+    body = nests[0]['b']
+
+    class Stop(Exception):
+        pass
+
+    def run(own, other):
+        st = {'own': own}
+
+        def call(e, env):
+            if e.get('k') == 'call' and e.get('f') == 'mpz_get_ui' and e.get('a'):
+                r = row_of(e['a'][0])
+                if r == 'own':
+                    return st['own']
+                if r == 'other':
+                    return other
+            raise evalx.NotEvaluable('call')
+
+        def stmt(x):
+            if x is None:
+                return
+            k = x.get('k')
+            if k == 'block':
+                for y in x['s']:
+                    stmt(y)
+            elif k == 'if':
+                stmt(x['t'] if evalx.ev(x['c'], {}, call) else x.get('e'))
+            elif k == 'call' and x.get('f') in ('mpz_set_ui',) and row_of(x['a'][0]) == 'own':
+                st['own'] = evalx.ev(x['a'][1], {}, call)
+            elif k == 'bin' and x.get('op') == ',':
+                stmt(x['a'][0]); stmt(x['a'][1])
+            else:
+                raise evalx.NotEvaluable('statement ' + str(k))
+        stmt(body)
+        return st['own']
+    try:
+        table = {(o, b): run(o, b) for o in (0, 1) for b in (0, 1)}
+    except evalx.NotEvaluable as ex:
+        ctx.note('R01d', key, 'update of the own row not evaluable as a truth table (%s): not decided' % ex, f)
+        ctx.floor('R01d:xor-evaluable', 0, 1)
+        return 1
+    wrong = [(o, b, v) for (o, b), v in sorted(table.items()) if (v & 1) != (o ^ b)]
+    # the other rows are visited completely and the own row is excluded
+    a = ctx.analysis(f)
+    T = a.T
+    cond = nests[0].get('c')
+    skip_own = any(x.get('k') == 'bin' and x.get('op') == '!=' and any(strip(y).get('id') == idx for y in x['a'] if isinstance(strip(y), dict)) for x in walk(cond)) or \
+        any(x.get('k') == 'if' and any(strip(y).get('id') == idx for z in walk(x.get('c')) if z.get('k') == 'bin' and z.get('op') in ('!=', '==') for y in z['a'] if isinstance(strip(y), dict))
+            for x in walk(f['body']))
+    if wrong:
+        ctx.bad('R01d', key, 'the own row is not updated to own XOR other: for (own, other) = (%d, %d) it becomes %d' % wrong[0], f, line=nests[0].get('l'))
+    elif not skip_own:
+        ctx.bad('R01d', key, 'the own row is XORed with itself (no test k != index)', f, line=nests[0].get('l'))
+    else:
+        ctx.ok('R01d', key, 'own bit := own XOR other for every other row (truth table 00->0, 01->1, 10->1, 11->0): the XOR over all rows of a fresh secret is 0', f, line=nests[0].get('l'))
+    return 1
 
 
 EXPLANATION = ("Shape conditions of the two card encodings read off the value terms of the dataflow: ElGamal masking / re-masking with one exponent, "
